@@ -357,6 +357,31 @@ fn main() {
         t
     });
 
+    // D3: very long decimals (far beyond the 767 digits of any float image)
+    let vlong: Vec<usize> = tier.pick(vec![500, 767, 768, 1000, 1500, 1912, 1913, 1990, 2500, 3263, 4000, 6000], (500..=6100).step_by(37).collect());
+    run.bound("D3_very_long_digit_lengths", json!(vlong));
+    run.par("D3 very long decimals -> to_f64", vlong.len(), |i| {
+        let mut t = Tally::default();
+        let l = vlong[i];
+        for (_, d) in patterns(l, run.seed()) {
+            let n = big(&d);
+            for e in [-330i128, -300, -20, -1, 0, 1, 17, 300, 308, 309] {
+                for sign in [1, -1] {
+                    let x = Dec { n: &n * sign, s: l as i128 - 1 - e };
+                    t.states += 1;
+                    t.transitions += 2;
+                    t.nontrivial += 1;
+                    for via_ref in [false, true] {
+                        if let Some(v) = check_to_f64(&lim, &x, via_ref) {
+                            run.report(v);
+                        }
+                    }
+                }
+            }
+        }
+        t
+    });
+
     // D2: halfway cases between adjacent floats at 64 exponent fields (+-1 in the 30th digit);
     //     neighbourhoods of MAX, MIN_POSITIVE and the smallest subnormal; extreme scales
     let mut d2: Vec<Dec> = vec![];
